@@ -18,7 +18,8 @@ path (zip rebuilt by stdlib zipfile -> APK(raw) -> get_certificate_der, get_cert
 Structural variants (full path, minSdk absent / 23 / 24): unrelated certificate first in the bag; SignerInfo referencing
 certificate A while signed with key B (same and different key type, A in / not in the bag); two SignerInfos (bad,good /
 good,bad / bad-signature,good); signed attributes whose messageDigest is right but the signature is over the .SF; signed
-attributes with the digest of other content; declared digest algorithm different from the one signed with; a second,
+attributes with the digest of other content; signed attributes whose messageDigest has the wrong LENGTH (empty, 1 / n-1 byte prefix
+of the correct and of a wrong digest, correct digest + 1 byte; signature valid over them; genuine and altered .SF); declared digest algorithm different from the one signed with; a second,
 corrupted signature block next to a valid one.
 History: every judged case is an explicit history in ONE process - the genuine artefact goes through get_certificate_der
 first (same path), then the substitution values of one fault site in order (structural variants: variant, the genuine
@@ -37,7 +38,7 @@ RULE = ("24 v1-signed artefacts (3 key types x 2 digests x signed attributes y/n
         ".SF, the signature value, the signed attributes, issuer+serial; quick: .SF x 255 values on 3 artefacts (one per key type) and "
         "the 8-value alphabet {^01,^02,^40,^80,00,7f,ff,~b} on every other site of all artefacts; thorough: .SF and signature x 255 on "
         "all artefacts; every mutant differs from the valid artefact in exactly one byte (distinct by construction); + one value per "
-        "site through the full zip path; + 11 (13 with signed attributes) structural variants x minSdk {absent, 23, 24} per "
+        "site through the full zip path; + 11 (25 with signed attributes) structural variants x minSdk {absent, 23, 24} per "
         "key/digest/attribute combination")
 ASSUMPTIONS = ["gen/apkgen builds the PKCS#7 SignedData with asn1crypto and signs with `cryptography` (the same libraries androguard "
                "parses/verifies with; the container, the JAR files and the fault injection are independent)",
@@ -364,9 +365,22 @@ def variants(kind, alg, attrs):
     if attrs:
         v["attrs-ok-but-signature-over-sf"] = (lambda sf: G.pkcs7([S(sf, sign_over="sf")], [kind], [alg]), ("nocert",))
         v["attrs-digest-of-other-content"] = (lambda sf: G.pkcs7([S(sf, attr_digest_of=b"other content")], [kind], [alg]), ("nocert",))
+        # messageDigest attribute of the wrong LENGTH, signature validly computed over those attributes: only the digest
+        # comparison can reject (RFC 5652 11.2: the attribute must EQUAL the computed digest).  Each against the genuine .SF and
+        # against a .SF with one byte altered (name suffix /altered-sf).
+        import hashlib
+        for md, make in MD_KINDS.items():
+            for alt in ("", "/altered-sf"):
+                v["messageDigest-truncated:%s%s" % (md, alt)] = (
+                    (lambda sf, make=make: G.pkcs7([S(sf, attr_digest_value=make(hashlib.new(alg, sf).digest(),
+                                                                                 hashlib.new(alg, b"other content").digest()))],
+                                                   [kind], [alg])), ("nocert",))
     return v
 
 
+# name -> f(correct digest, wrong digest) -> messageDigest attribute value
+MD_KINDS = {"empty": lambda c, w: b"", "correct-prefix-1": lambda c, w: c[:1], "correct-prefix-n-1": lambda c, w: c[:-1],
+            "wrong-prefix-1": lambda c, w: w[:1], "wrong-prefix-n-1": lambda c, w: w[:-1], "correct-plus-1": lambda c, w: c + b"\x00"}
 STRUCT_MINSDK = [None, 23, 24]
 
 
@@ -403,12 +417,17 @@ def judge_struct(kind, alg, attrs, minsdk, name):
         return out, "%s|%s" % (o1[0], o2[0])
     builder, exp = variants(kind, alg, attrs)[name]
     art = build_art(cfg, p7_builder=builder)
+    repl = None
+    if name.endswith("/altered-sf"):
+        b = bytearray(art.sf)
+        b[len(b) // 2] ^= 0x01
+        repl = {art.sf_name: bytes(b)}
     # history: the variant, then the genuine artefact of the same configuration, then the SAME variant bytes again; both
     # observations of the variant are judged (in a fresh replay process the first one is a cold start)
-    o, v1, names = full_obs(art)
+    o, v1, names = full_obs(art, repl)
     g = full_obs(build_art(cfg))[0]
     full_obs(build_art((kind, alg, not attrs, minsdk)))      # the sibling genuine artefact (other signed-attribute setting) too:
-    o2, v12, _ = full_obs(art)                               # its signature is over the bare .SF resp. the attributes
+    o2, v12, _ = full_obs(art, repl)                         # its signature is over the bare .SF resp. the attributes
     if g != ("cert", G.cert_der(kind)):
         out.append(("valid:%s:%s" % ("signed-attrs" if attrs else "no-attrs", kind),
                     "%s: the genuine artefact verified between the two runs yields %s" % (tag, g[0])))
@@ -463,7 +482,9 @@ def space(ctx):
             "example_sizes(rsa/sha256/attrs)": {"sf": len(art.sf), "pkcs7": len(art.p7), "signature": f["signature"][1],
                                                 "signed-attrs": f["signed-attrs"][1], "sid": f["sid"][1]},
             "full_path_binding": "every fault site of every artefact x value ^01 through zipfile -> APK(raw)",
-            "structural_variants_built": "11 per (key, digest) without signed attributes, 13 with, x minSdk %r" % (STRUCT_MINSDK,),
+            "structural_variants_built": "11 per (key, digest) without signed attributes, 25 with (13 + 6 wrong-length messageDigest "
+                                         "kinds x {genuine, altered .SF}), x minSdk %r" % (STRUCT_MINSDK,),
+            "messageDigest_kinds": sorted(MD_KINDS),
             "structural_variants": sorted(variants("rsa", "sha256", True)) + ["second-block-corrupt"],
             "structural_minsdk": STRUCT_MINSDK, "cryptography_deterministic": {"rsa": True, "ec": "RFC 6979 if available", "dsa": False},
             "keys": G.KEY_NAMES}
@@ -575,7 +596,7 @@ def finalize(ctx, acc):
             acc.harness_error("no .SF site was enumerated with the 255-value alphabet")
         if ctx.thorough and (acc.extra.get("sites_sf_x8") or acc.extra.get("sites_signature_x8")):
             acc.harness_error("thorough tier must use the 255-value alphabet on every .SF and signature byte")
-    nstruct = sum((13 if at else 11) for k, a, at, ms in configs() if ms is None) * len(STRUCT_MINSDK)
+    nstruct = sum((25 if at else 11) for k, a, at, ms in configs() if ms is None) * len(STRUCT_MINSDK)
     if acc.extra.get("structural_variants") != nstruct:
         acc.harness_error("structural variants built: %r, stated: %d" % (acc.extra.get("structural_variants"), nstruct))
     for ms in STRUCT_MINSDK:
